@@ -785,6 +785,11 @@ class CaptureManager:
 
     # Hooks
 
+    @hookimpl
+    def pytask_unconfigure(self) -> None:
+        """Stop capturing and restore the standard streams and file descriptors."""
+        self.stop_capturing()
+
     @hookimpl(wrapper=True)
     def pytask_execute_task_setup(self, task: PTask) -> Generator[None, None, None]:
         """Capture output during setup."""
